@@ -134,6 +134,10 @@ SNIPPETS = [
     'def f[T: (int, str), *Ts, **P](a: T, *b: (Ts)) -> (T): pass\nasync def g[U: (int)](): pass\nclass K[V: (a, b)](B): pass',
     'f(k=1, *a, *b, *c)\nf(x, k=1, *a, j=2, *b, *c, *d)\nf(*a, k=1, *b, **d, l=2)\nclass C(k=1, *a, *b, *c): pass\nclass D(x, *y, k=1, *a, *b, **kw): pass',
     'f((target))\nclass C((base)): pass\nfrom m import (a as b)\nmatch x:\n    case C((p)): pass\n',
+    'def f[T, U: (int, str), *V](a: (T)) -> U: pass\nasync def g[*A, B: (x), **C](): pass\nclass K[T, V: (a, b)](B[T], k=(V)): pass\nclass L[T, U: (int)]: pass\ntype X[T, U: (a, b)] = (T, U)',
+    'match x:\n    case {1: a, 2: C(rest=b), **rest}: pass\n    case C(p, (q), k=(r), kk=C(k=1), kkk=[k]): pass\n    case {**kw}: pass\n    case {"a": 1, **  r2 ,}: pass\n',
+    'class C[T](B[T]): pass\nclass D(B[0]): pass\ndef f(a=[1]): pass\ndef g[T](a: list[T]) -> x[T]: pass\ntype X = list[int]\ntype Y[T] = list[T]',
+    'class C(k=a[0], *b): pass\nclass D(k={1: 2}, *b[1:2], l=c[0]): pass',
     '@d("#")\ndef f(x="#"): return x["#"]\nasync def g():\n    async with a: await b("#")\n',
 ]
 
@@ -518,6 +522,78 @@ def _judge_nodes(root, orc, res, fail, tally):
                     fail(f'C06|_loc_block_header_end|{k}|raised', f'raised {type(e).__name__}', **where)
                 if he is not None and (he[2], he[3]) != c.end:
                     fail(f'C06|_loc_block_header_end|{k}|colon', f'header end {he} but ":" token ends at {c.end}', **where)
+        # --- delimiter pairs owned by the node (computed locations) --------------------------------------------------
+        if isinstance(o, (ast.Call, ast.Subscript, ast.MatchClass)) and id(o) not in orc.in_fstr:
+            exp = orc.expected_delims(o)
+            meth = {'Call': '_loc_Call_pars', 'Subscript': '_loc_Subscript_brackets', 'MatchClass': '_loc_MatchClass_pars'}[k]
+            if exp is None:
+                tally('excluded:delims-undecided')
+            else:
+                try:
+                    dl = getattr(f, meth)()
+                    if as_span(dl) != exp:
+                        fail(f'C06|{meth}|{k}|span', f'{meth}() = {tuple(dl)} but the delimiter tokens span {exp}', **where)
+                except Exception as e:
+                    fail(f'C06|{meth}|{k}|raised', f'{meth}() raised {type(e).__name__}: {e}', **where)
+        if isinstance(o, ast.ClassDef):
+            exp = orc.expected_bases_pars(o)
+            if exp is None:
+                tally('excluded:bases-pars-undecided')
+            else:
+                try:
+                    dl = f._loc_ClassDef_bases_pars()
+                    if dl.n != exp[0] or as_span(dl) != exp[1]:
+                        fail('C06|_loc_ClassDef_bases_pars|ClassDef|span', f'_loc_ClassDef_bases_pars() = {tuple(dl)} n={dl.n} but tokens give n={exp[0]} {exp[1]}', **where)
+                except Exception as e:
+                    fail('C06|_loc_ClassDef_bases_pars|ClassDef|raised', f'raised {type(e).__name__}: {e}', **where)
+        # --- more computed locations: keyword attribute names, type parameter brackets, mapping rest -------------------
+        if isinstance(o, ast.MatchClass):
+            for i in range(len(o.kwd_attrs)):
+                exp = orc.expected_kwd_attr(o, i)
+                if exp is None:
+                    tally('excluded:kwd-attr-undecided')
+                    continue
+                try:
+                    dl = f._loc_kwd_attrs(i)
+                    if as_span(dl) != exp:
+                        fail('C06|_loc_kwd_attrs|MatchClass|span', f'_loc_kwd_attrs({i}) = {tuple(dl)} but the NAME token is at {exp}', **where)
+                except Exception as e:
+                    fail('C06|_loc_kwd_attrs|MatchClass|raised', f'raised {type(e).__name__}: {e}', **where)
+            for i2 in range(len(o.kwd_attrs)):        # ranges of keyword attribute names
+                e1, e2 = orc.expected_kwd_attr(o, 0), orc.expected_kwd_attr(o, i2)
+                if e1 is None or e2 is None:
+                    continue
+                try:
+                    dl = f._loc_kwd_attrs(0, i2)
+                    if as_span(dl) != (e1[0], e2[1]):
+                        fail('C06|_loc_kwd_attrs|MatchClass|range-span', f'_loc_kwd_attrs(0, {i2}) = {tuple(dl)} but the NAME tokens span {(e1[0], e2[1])}', **where)
+                except Exception as e:
+                    fail('C06|_loc_kwd_attrs|MatchClass|raised', f'raised {type(e).__name__}: {e}', **where)
+        if isinstance(o, (ast.FunctionDef, ast.AsyncFunctionDef, ast.ClassDef, ast.TypeAlias)):
+            exp = orc.expected_type_params_brackets(o)
+            meth = ('_loc_ClassDef_type_params_brackets' if isinstance(o, ast.ClassDef) else
+                    '_loc_TypeAlias_type_params_brackets' if isinstance(o, ast.TypeAlias) else '_loc_FunctionDef_type_params_brackets')
+            if exp is None:
+                tally('excluded:type-params-brackets-undecided')
+            else:
+                try:
+                    br, pos = getattr(f, meth)()
+                    got = (None if br is None else as_span(br), tuple(pos))
+                    if got != exp:
+                        fail(f'C06|{meth}|{k}|span', f'{meth}() = {got} but tokens give {exp}', **where)
+                except Exception as e:
+                    fail(f'C06|{meth}|{k}|raised', f'raised {type(e).__name__}: {e}', **where)
+        if isinstance(o, ast.MatchMapping) and o.rest is not None:
+            exp = orc.expected_mapping_rest(o)
+            if exp is None:
+                tally('excluded:mapping-rest-undecided')
+            else:
+                try:
+                    a1, a2 = f._loc_MatchMapping_rest(), f._loc_MatchMapping_rest(True)
+                    if as_span(a1) != exp[0] or as_span(a2) != (exp[1], exp[0][1]):
+                        fail('C06|_loc_MatchMapping_rest|MatchMapping|span', f'_loc_MatchMapping_rest() = {tuple(a1)} / {tuple(a2)} but tokens give {exp}', **where)
+                except Exception as e:
+                    fail('C06|_loc_MatchMapping_rest|MatchMapping|raised', f'raised {type(e).__name__}: {e}', **where)
         # --- pars() --------------------------------------------------------------------------------------------------
         if isinstance(o, (ast.expr, ast.pattern)) and not isinstance(o, (ast.Slice, ast.FormattedValue, ast.Starred, ast.JoinedStr)) \
                 and id(o) not in orc.in_fstr and id(o) not in orc.in_pattern and orc.has_pos(o):
@@ -839,6 +915,11 @@ def _edit_prog_inner(arg):
     for i in stmts:
         a = fl0[i].a
         chains.append((i, [('put_line_comment', nm, ar, kw) for nm, ar, kw in LC_CHAIN]))
+        if not isinstance(a, BLOCKS) and not isinstance(a, ast.match_case):
+            # source-only put (action=None) over the trailing comment of the statement: no node moves, but every enclosing
+            # block's bounding location follows the new comment
+            chains.append((i, [('put_line_comment', 'new', ('first é',), {}), ('put_src_tail', 'longer', ('# replaced by put_src → été, longer',), {}),
+                               ('put_src_tail', 'shorter', ('#z',), {}), ('put_src_tail', 'none', ('',), {})]))
         for field in ('orelse', 'finalbody'):
             if getattr(a, field, None) and isinstance(a, ast.stmt):
                 chains.append((i, [('put_line_comment', f'{field}:{nm}', ar + (field,), kw) for nm, ar, kw in LC_CHAIN[:3] + LC_CHAIN[4:]]))
@@ -847,6 +928,7 @@ def _edit_prog_inner(arg):
                                ('put_docstr', 'delete', (None,), {})]))
     for i in exprs:
         chains.append((i, [('par', 'force', (True,), {}), ('unpar', '', (), {})]))
+        chains.append((i, [('unpar', 'only', (), {})]))
     # whitespace-only put_src(action='offset') at a few token gaps
     try:
         from props import C11 as _c11
@@ -869,6 +951,12 @@ def _edit_prog_inner(arg):
                     ln, col, eln, ecol = args[:4]
                     node = _c11._innermost(root, ln, col, eln, ecol)
                     node.put_src(' ' if (ln, col) == (eln, ecol) else '   ', ln, col, eln, ecol, 'offset')
+                elif meth == 'put_src_tail':
+                    tl = target.loc
+                    cm = Oracle(root.src).comments.get(tl[2])        # the comment token on the statement's last line
+                    if cm is None or cm[0] < tl[3]:
+                        break
+                    target.put_src(args[0], tl[2], cm[0], tl[2], len(root._lines[tl[2]]), None)   # called on the statement that owns the line (documented)
                 else:
                     getattr(target, meth)(*args, **kw)
             except Exception as e:
@@ -888,7 +976,7 @@ def _edit_prog_inner(arg):
             try:
                 orc = Oracle(new_src)
             except SyntaxError as e:
-                if meth in ('put_line_comment', 'put_docstr'):
+                if meth in ('put_line_comment', 'put_docstr', 'put_src_tail'):
                     fail(f'C06|source|{kind}|no-longer-parses', f'the source no longer parses ({e.msg}): nodes keep locations of text that is gone; new source {new_src!r}')
                 else:
                     tally(f'excluded:unparsable-after-{meth}')
@@ -918,6 +1006,10 @@ def edit_sources(rng, n):
            'if a: pass\nelif b: pass\nelse: pass\nfor i in j: pass\nelse: pass\nwhile a: pass\nelse: pass\ntry: pass\nfinally: pass\n',
            'match a:\n    case 1: pass  # c\n    case [x, *y] if x:\n        z = (x)  # d\n',
            'x = (a)  # c\ny = [\n    1,  # one\n    2,\n]  # end\nz = f(k=1, *a, *b)  ;  w = 2\n']
+    # grouping parentheses glued to keywords / names (unpar() turns them into blanks and moves the parent's ends),
+    # multi-byte text earlier on the same line
+    out += ['ü = é and(a)or b', 'é = "ñ"; ü = not(a)', 'def f():\n    "é"; return(a) + b\n', 'ñ = [é for é in(a)if(b)]',
+            'é = "日本" if(a)else(b)', 'x = é; y = 1 if ñ else(a)or b; z = (x)', 'ü = "é" in(a)is(b)', 'é = lambda: (yield(a))']
     out += SNIPPETS[:: 3]
     try:
         out += corpus.hard_snippets()[:: 2]
